@@ -568,7 +568,7 @@ def catalog_cases(chunk):
 
 
 PARTS = {
-  r: Part(r, check, strategy=cases(r), n=(800 if r != "imsc" else 640, 160000), shrinker=shrinker, budget=(150, 7200),
+  r: Part(r, check, strategy=cases(r), n=(800 if r != "imsc" else 640, 64000), shrinker=shrinker, budget=(150, 2400),
           required_labels=(r + ":document", "mutated", "verbatim"))
   for r in READERS
 }
